@@ -376,11 +376,10 @@ def surface_pairing(P, rep, rule="DEP.surfaces"):
                 if anc.get("k") == "IfStmt":
                     allowed |= {y["i"] for y in F.walk(anc["c"][0])}
             # a comparison against the bound in any if-condition is a (possibly redundant) range test, not a use of its value
-            for st in F.walk():
-                if st.get("k") == "IfStmt":
-                    for cmpn in F.walk(st["c"][0]):
-                        if cmpn.get("k") == "BinaryOperator" and cmpn.get("op") in ("<", "<=", ">", ">="):
-                            allowed |= {y["i"] for y in F.walk(cmpn)}
+            for cmpn in F.walk():
+                # a comparison yields a truth value wherever it is written (if-condition, named bool, ternary condition)
+                if cmpn.get("k") == "BinaryOperator" and cmpn.get("op") in ("<", "<=", ">", ">="):
+                    allowed |= {y["i"] for y in F.walk(cmpn)}
             bad = [y for y in F.walk() if y.get("k") == "MemberExpr" and y.get("r") == a["r"] and astq.is_this_field(P, y) and y["i"] not in allowed]
             exc = LOCAL_BOUND_EXCEPTIONS.get((F.qn.split("Features::")[-1], a.get("n")))
             if exc is not None and (exc[0] is None or len(bad) <= exc[0]):
